@@ -342,13 +342,21 @@ def cache_statistics():
         pass
     else:
         check(False, "error mode raises")
-    # unhashable argument: only a problem while caching is on
-    try:
-        helpers.neighbors(a, 0, [1])
-    except TypeError:
-        pass
-    else:
-        check(False, "unhashable argument with caching on")
+    # unhashable argument: such a query is never cached (since ffc7541; while
+    # caching was on it raised TypeError before that), so caching on and off
+    # behave alike and the statistics do not move
+    stats_before = Vertex.total_cache_stats()
+    for _ in range(2):
+        try:
+            helpers.neighbors(a, 0, [1])
+        except NotImplementedError:
+            pass
+        else:
+            check(False, "unhashable argument with caching on")
+    check(
+        Vertex.total_cache_stats() == stats_before,
+        "unhashable argument is not counted",
+    )
     reset(False)
     try:
         helpers.neighbors(a, 0, [1])
